@@ -2,6 +2,8 @@
 // Each function contains exactly the construct the named rule has to report; the rule runs its detector on the control on
 // every run and stops with exit 2 (analysis broken) if the detector stays silent.  Not part of the analysed program.
 #include "src/cdns.h"
+#include <sys/uio.h>
+#include <stdexcept>
 namespace verif_rc {
 
 // R09.6: a reader that rejects depending on the decoded value
@@ -80,5 +82,34 @@ bool r18_6_same_params_all(const r18_6_params& x, const r18_6_params& y)
 {
     return x.a == y.a && x.b == y.b && x.c == y.c;
 }
+
+// R16.8 short counts of a gathering write: the count that ends exactly at the boundary between the two buffers is not handled
+struct r16_8_writer {
+    int m_fd;
+    void write(const char* p, std::size_t size);
+    void gather_boundary_lost(const char* head, std::size_t head_size, const char* body, std::size_t body_size) {
+        struct iovec iov[2];
+        iov[0].iov_base = const_cast<char*>(head); iov[0].iov_len = head_size;
+        iov[1].iov_base = const_cast<char*>(body); iov[1].iov_len = body_size;
+        ssize_t ret = ::writev(m_fd, iov, 2);
+        if (ret < 0 || static_cast<std::size_t>(ret) < head_size)
+            throw std::runtime_error("short write");
+        std::size_t sent = static_cast<std::size_t>(ret);
+        if (sent > head_size && sent < head_size + body_size)
+            write(body + (sent - head_size), head_size + body_size - sent);
+    }
+    // ... (negative control) and with every count handled
+    void gather_complete(const char* head, std::size_t head_size, const char* body, std::size_t body_size) {
+        struct iovec iov[2];
+        iov[0].iov_base = const_cast<char*>(head); iov[0].iov_len = head_size;
+        iov[1].iov_base = const_cast<char*>(body); iov[1].iov_len = body_size;
+        ssize_t ret = ::writev(m_fd, iov, 2);
+        if (ret < 0 || static_cast<std::size_t>(ret) < head_size)
+            throw std::runtime_error("short write");
+        std::size_t sent = static_cast<std::size_t>(ret);
+        if (sent < head_size + body_size)
+            write(body + (sent - head_size), head_size + body_size - sent);
+    }
+};
 
 }
